@@ -347,21 +347,23 @@ PROPS = {
         "spec_ops": {"cal_rt": "cal_rt_spec"},
         "feed_ops": {"cal_law": "cal_law_chk"},
         "level_text": "Proof, for the calendars whose rules are arithmetic (gregory, buddhist, roc, japanese, coptic, ethiopic, "
-                      "ethioaa, indian, islamic-civil, islamic-tbla) and EVERY date of Temporal's range: C16_daycount_inverse (day "
+                      "ethioaa, indian, islamic-civil, islamic-tbla, persian) and EVERY date of Temporal's range: C16_daycount_inverse (day "
                       "<-> (year, month, day) are mutually inverse and every produced date exists; one generic theorem for any "
-                      "calendar given by year starts and month lengths, instantiated five times), C16_fields_bounds (day <= "
+                      "calendar given by year starts and month lengths, instantiated six times - the Persian 33-year rule with its "
+                      "78 table corrections included), C16_fields_bounds (day <= "
                       "days-in-month, month <= months-in-year, day-of-year <= days-in-year, month code agrees with month), "
                       "C16_consecutive_days (the next ISO day is the next calendar day; era year follows the year or a new era starts "
                       "at 1 - including the five Japanese era changes), C16_rebuild_from_year_code / _year_month / _era (from_partial "
                       "through the crate's era table, month-code validation and the library's date_from_codes returns the original "
-                      "ISO date from each of the three field sets, both overflow modes), C16_japanese_nonpositive_year (the one "
-                      "exception, proved as a fact of the code), C16_with_calendar_keeps_iso. For ALL calendars: "
+                      "ISO date from each of the three field sets, both overflow modes; every reported year passes the crate's year "
+                      "guard), C16_japanese_nonpositive_year (the one exception, proved as a fact of the code), C16_year_guard (years "
+                      "beyond +-300000 are RangeErrors before the library is asked), C16_with_calendar_keeps_iso. For ALL calendars: "
                       "C16_era_names_accepted (every era name handed to the library is a code that calendar accepts), "
                       "C16_reported_eras_accepted, C16_alias_unambiguous / C16_alias_resolves, C16_identifier_case_insensitive / "
                       "_lower_idem / _canonical / _roundtrip. Tie: every getter, the consecutive-day pair, the three rebuild routes, "
                       "from_partial on random field subsets and on every (calendar, era alias, era year around each bound) cell, the "
                       "resolved library arguments (hook) and identifier parsing are compared with the model for the modelled "
-                      "calendars; for chinese, dangi, hebrew, persian, islamic, islamic-umalqura, japanext the crate's own resolution "
+                      "calendars; for chinese, dangi, hebrew, islamic, islamic-umalqura, japanext the crate's own resolution "
                       "is compared exactly, and the fields the implementation reports are handed to the driver, which evaluates "
                       "the same Lean law predicates (FieldsOk, Consecutive) on them; the rebuild law is compared with its "
                       "specification constant.",
